@@ -440,6 +440,8 @@ def u_optimiser_iterations(ctx):
         mgn = float(ctx.rng.choice([0.05, 0.5, 5.0]))
         lr0 = float(ctx.rng.choice([1e-3, 1e-2]))
         frozen_after = int(ctx.rng.integers(1, 3)) if (i // 3) % 2 == 1 else None  # optimiser steps until the rate is 0
+        if frozen_after is not None and which == "ppo":
+            frozen_after = 1  # the first minibatch step of the first epoch is live, every later one is frozen
         lr = lr0 if frozen_after is None else optax.piecewise_constant_schedule(lr0, {frozen_after: 0.0})
         if which == "a2c":
             algo = A2C(num_envs=E, num_steps=T, max_grad_norm=mgn, learning_rate=lr, normalize_advantages=False)
@@ -450,7 +452,9 @@ def u_optimiser_iterations(ctx):
             grad = lambda p, b: REINFORCE.reinforce_loss_grad(p, b, False, algo.value_loss_coefficient)[1]  # noqa: E731
             steps_per_iter = 1
         else:
-            ne, nb = int(ctx.rng.integers(1, 3)), int(ctx.rng.integers(1, 3))
+            ne, nb = int(ctx.rng.integers(1, 3)), int(ctx.rng.integers(1, 4))
+            if (i // 3) % 2 == 1:
+                ne, nb = int(ctx.rng.integers(1, 3)), int(ctx.rng.integers(2, 4))  # schedule cases: several minibatches per epoch
             algo = PPO(num_envs=E, num_steps=T, num_batches=nb, num_epochs=ne, max_grad_norm=mgn, learning_rate=lr)
             grad, steps_per_iter = None, ne * nb
         cls = type(algo)
@@ -502,6 +506,15 @@ def u_optimiser_iterations(ctx):
             a, b = inexact_leaves(p_out), inexact_leaves(p_in)
             moved = max(float(np.max(np.abs(x - y))) for x, y in zip(a, b) if x.size)
             if frozen_after is not None:
+                if steps_done < frozen_after:
+                    # at least one optimiser step of this iteration ran at the live rate: it must be visible in the
+                    # policy train() returns, whatever later (zero-rate) minibatch steps did after it
+                    ctx.monitor("iterations_with_live_then_frozen_steps" if steps_done + steps_per_iter > frozen_after
+                                else "iterations_with_live_steps_only")
+                    if moved == 0.0:
+                        ctx.violation("live-optimiser-steps-left-no-trace-in-the-returned-policy",
+                                      {**desc, "iteration": it, "optimiser_steps_before": steps_done,
+                                       "live_steps_this_iteration": min(frozen_after - steps_done, steps_per_iter)})
                 if steps_done >= frozen_after:
                     ctx.monitor("frozen_schedule_iterations_checked")
                     if moved != 0.0:
@@ -524,6 +537,7 @@ def u_optimiser_iterations(ctx):
             steps_done += steps_per_iter
     ctx.require("optimiser_state_carry_checked", 9)
     ctx.require("frozen_schedule_iterations_checked", 3)
+    ctx.require("iterations_with_live_then_frozen_steps", 1)
     ctx.require("iterations_compared_with_carried_reference_optimiser", 6)
 
 
